@@ -696,5 +696,8 @@ pub fn main(tier: Tier, replay: Option<serde_json::Value>) -> i32 {
         "zero draws are informational only: a zero top blinder is the excused degenerate case".into(),
         "this decides the masking structure; statistical zero-knowledge is not re-proved".into(),
     ];
+    if replay.is_none() {
+        crate::c06_large::large_domain(&mut run, tier);
+    }
     run.finish()
 }
